@@ -169,6 +169,10 @@ def apply_op(b: Built, op: dict) -> str:
             b.objs[op['h']].set_attributes(**{key: decode_value(val, b.objs) for key, val in op['kw'].items()})
         elif k == 'origin_ref':
             b.objs[op['h']].origin_reference = op['value']
+        elif k == 'dsname':
+            b.objs[op['h']].dataset_name = op['value']
+        elif k == 'cast':
+            b.objs[op['h']].cast_dtype = decode_value(op['value'], b.objs)
         elif k == 'rename':
             b.objs[op['h']].name = op['value']
         elif k == 'nfdata':
@@ -217,7 +221,7 @@ def write_kwargs(spec: dict, b: Built) -> dict:
     return w
 
 
-def run_spec(spec: dict, fname: str = 'out.dlis', keep_built: bool = False) -> dict:
+def run_spec(spec: dict, fname: str = 'out.dlis', keep_built: bool = False, pre: Any = None) -> dict:
     """Build and write a specification. Returns {'status': [...], 'failed_at':, 'write': 'ok'|'raised:..'|'skipped',
     'data': bytes|None}."""
     b = build(spec)
@@ -228,8 +232,16 @@ def run_spec(spec: dict, fname: str = 'out.dlis', keep_built: bool = False) -> d
         _unwind(b)
         return res
     path = os.path.join(scratch_dir(), fname)
-    if os.path.exists(path):
+    if os.path.isdir(path):
+        os.rmdir(path)
+    elif os.path.exists(path):
         os.remove(path)
+    if pre == 'dir':
+        os.mkdir(path)
+    elif pre is not None:
+        with open(path, 'wb') as f:
+            f.write(pre)
+    res['path'] = path
     try:
         kw = write_kwargs(spec, b)
         b.df.write(path, **kw)
@@ -243,6 +255,8 @@ def run_spec(spec: dict, fname: str = 'out.dlis', keep_built: bool = False) -> d
     if res['write'] == 'ok':
         with open(path, 'rb') as f:
             res['data'] = f.read()
+    if os.path.isdir(path):
+        os.rmdir(path)
     return res
 
 
